@@ -10,7 +10,7 @@ def record_family(ck, names, k, tag, parts=16, seedoff=0):
         f = os.path.join(ck.work, '%s_%02d.ndjson' % (tag, i))
         files.append(f)
         cmds.append('%s --mode "fam:%s:%d:%d/%d" --seed %d --out %s' %
-                    (ck.bin('isa_rec'), ','.join(names), k, i, parts, ck.seed * 977 + i + seedoff, f))
+                    (ck.bin('isa_rec'), ';'.join(names) + ';', k, i, parts, ck.seed * 977 + i + seedoff, f))
     ck.run_jobs(cmds, timeout=900)
     return [f for f in files if os.path.getsize(f) > 0]
 
